@@ -515,7 +515,7 @@ func inject(t *rapid.T, s *codecx.Schema, st site) string {
 			*st.slot = raw(pick("wt", "5", "true", "{}", "[]"))
 			return "wrong-type:date"
 		}
-		*st.slot = jx.S(pick("dt", "2020-01", "20200101", "abcd-01-01", "2020-01-01-01", "", "2020/01/01"))
+		*st.slot = jx.S(pick("dt", "2020-01", "20200101", "abcd-01-01", "2020-01-01-01", "", "2020/01/01", "2020-13-01", "2020-00-10", "2021-02-29", "2020-02-30", "2020-04-31", "2020-01-32", "2020-01-00", "4294969316-01-01", "2020-4294967297-01", "2020-01-4294967297", "99999999999999999999-01-01"))
 		return "invalid-date"
 	case tag == "decimal":
 		if rapid.Bool().Draw(t, "f") {
